@@ -315,4 +315,159 @@ theorem chunkAll_greedy (p : CParams) (hv : p.valid) (h : Hash) (pieces : List B
     have := feed_greedy p hv h (pc :: ps) [] cs (by simp) hc
     simpa using this
 
+/-! ### streams with a common prefix -/
+theorem ceil4_pos {n : Nat} (hn : 0 < n) : 0 < ceil4 n := by unfold ceil4; omega
+
+/-- two streams `U ++ Y`, `U ++ Y'`: the greedy chunkings share every chunk that starts at least `ceil4 max`
+before the end of `U` (unless one of the streams is already in its tail zone) -/
+theorem greedyFull_common_prefix (p : CParams) (hv : p.valid) (h : Hash) :
+    ∀ (n : Nat) (U Y Y' : Bytes) (ga gb : List Bytes), U.length ≤ n →
+      greedyFull p h (U ++ Y) = some ga → greedyFull p h (U ++ Y') = some gb →
+      ∃ common ra rb, ga = common ++ ra ∧ gb = common ++ rb ∧ common.flatten.length ≤ U.length ∧
+        (U.length < common.flatten.length + ceil4 p.max ∨ ra = [] ∨ rb = []) := by
+  intro n
+  induction n with
+  | zero =>
+    intro U Y Y' ga gb hn _ _
+    exact ⟨[], ga, gb, rfl, rfl, by simp, Or.inl (by have := ceil4_pos (valid_max_pos hv); simp; omega)⟩
+  | succ n ih =>
+    intro U Y Y' ga gb hn hga hgb
+    by_cases hU : U.length < ceil4 p.max
+    · exact ⟨[], ga, gb, rfl, rfl, by simp, Or.inl (by simp; omega)⟩
+    · have hUl : ceil4 p.max ≤ U.length := by omega
+      rcases greedyFull_inv p hv h _ ga hga with ⟨_, rfl⟩ | ⟨c, g1, _, hc, h1, _, hmax, _, hg1, rfl⟩
+      · exact ⟨[], [], gb, rfl, rfl, by simp, Or.inr (Or.inl rfl)⟩
+      · rcases greedyFull_inv p hv h _ gb hgb with ⟨_, rfl⟩ | ⟨c', g2, _, hc', _, _, _, _, hg2, rfl⟩
+        · exact ⟨[], _, [], rfl, rfl, by simp, Or.inr (Or.inr rfl)⟩
+        · rw [mainCut_append p h U Y hUl] at hc
+          rw [mainCut_append p h U Y' hUl, hc] at hc'
+          simp only [Option.some.injEq] at hc'
+          subst hc'
+          have hcl : c ≤ U.length := by have := le_ceil4 p.max; omega
+          rw [List.drop_append_of_le_length hcl] at hg1 hg2
+          obtain ⟨common, ra, rb, rfl, rfl, hle, hor⟩ :=
+            ih (U.drop c) Y Y' g1 g2 (by rw [List.length_drop]; omega) hg1 hg2
+          rw [List.length_drop] at hle hor
+          refine ⟨U.take c :: common, ra, rb, ?_, ?_, ?_, ?_⟩
+          · rw [List.take_append_of_le_length hcl]; rfl
+          · rw [List.take_append_of_le_length hcl]; rfl
+          · simp only [List.flatten_cons, List.length_append, List.length_take]; omega
+          · simp only [List.flatten_cons, List.length_append, List.length_take]
+            rcases hor with hor | hor | hor
+            · left; omega
+            · right; left; exact hor
+            · right; right; exact hor
+
+/-! ### the result depends on the key only through the hash of 8-byte windows -/
+theorem window_length {buf : Bytes} {i : Nat} {w : Bytes} (hw : window buf i = some w) : w.length = 8 := by
+  by_cases hc : 4 ≤ i ∧ i + 4 ≤ buf.length
+  · rw [window_eq_some hc] at hw
+    simp only [Option.some.injEq] at hw
+    subst hw
+    rw [List.length_take, List.length_drop]; omega
+  · rw [window_eq_none hc] at hw; cases hw
+
+theorem scanFrom_congr (h h' : Hash) (hh : ∀ w : Bytes, w.length = 8 → h w = h' w) (buf : Bytes) :
+    ∀ (is : List Nat) (acc : Nat × Nat), scanFrom h buf is acc = scanFrom h' buf is acc := by
+  intro is
+  induction is with
+  | nil => intro acc; rfl
+  | cons i is ih =>
+    intro acc
+    simp only [scanFrom, scanStep]
+    cases hw : window buf i with
+    | none => rfl
+    | some w =>
+      simp only [hh w (window_length hw)]
+      by_cases hb : Gen.better (h' w) acc.2 = true
+      · simp only [if_pos hb]; exact ih _
+      · simp only [if_neg hb]; exact ih _
+
+theorem mainCut_congr (p : CParams) (h h' : Hash) (hh : ∀ w : Bytes, w.length = 8 → h w = h' w) (buf : Bytes) :
+    mainCut p h buf = mainCut p h' buf := by
+  unfold mainCut; rw [scanFrom_congr h h' hh]
+
+theorem nextCut_congr (p : CParams) (h h' : Hash) (hh : ∀ w : Bytes, w.length = 8 → h w = h' w) (buf : Bytes) (f : Bool) :
+    nextCut p h buf f = nextCut p h' buf f := by
+  unfold nextCut; rw [mainCut_congr p h h' hh]
+
+theorem drain_congr (p : CParams) (h h' : Hash) (hh : ∀ w : Bytes, w.length = 8 → h w = h' w) (f : Bool) :
+    ∀ (fuel : Nat) (buf : Bytes), drain p h f fuel buf = drain p h' f fuel buf := by
+  intro fuel
+  induction fuel with
+  | zero => intro buf; rfl
+  | succ n ih => intro buf; simp only [drain, nextCut_congr p h h' hh, ih]
+
+theorem feed_congr (p : CParams) (h h' : Hash) (hh : ∀ w : Bytes, w.length = 8 → h w = h' w) :
+    ∀ (ps : List Bytes) (buf : Bytes), feed p h buf ps = feed p h' buf ps := by
+  intro ps
+  induction ps with
+  | nil => intro buf; rfl
+  | cons pc ps ih =>
+    intro buf
+    cases ps with
+    | nil => simp only [feed, drain_congr p h h' hh]
+    | cons q qs => simp only [feed, drain_congr p h h' hh, ih]
+
+theorem greedy_congr (p : CParams) (h h' : Hash) (hh : ∀ w : Bytes, w.length = 8 → h w = h' w) :
+    ∀ (fuel : Nat) (s : Bytes), greedy p h fuel s = greedy p h' fuel s := by
+  intro fuel
+  induction fuel with
+  | zero => intro s; rfl
+  | succ n ih => intro s; simp only [greedy, mainCut_congr p h h' hh, ih]
+
+/-! ### the padded snapshot stream -/
+namespace Sync
+
+theorem padding_lt (len : Nat) : Gen.padding len Gen.align < Gen.align := by
+  show (4 - len % 4) % 4 < 4
+  omega
+
+theorem padding_dvd (len : Nat) : Gen.align ∣ len + Gen.padding len Gen.align := by
+  show 4 ∣ len + (4 - len % 4) % 4
+  omega
+
+theorem padOf_length (len : Nat) : (padOf len).length = Gen.padding len Gen.align := by
+  simp [padOf]
+
+theorem padPrefix_aligned (pre : List Bytes) : Gen.align ∣ (padPrefix pre).length := by
+  induction pre with
+  | nil => simp [padPrefix]
+  | cons f rest ih =>
+    simp only [padPrefix, List.length_append, padOf_length]
+    have := padding_dvd f.length
+    rw [Gen.align_eq] at *
+    omega
+
+theorem padStream_split (pre : List Bytes) (f : Bytes) (post : List Bytes) :
+    padStream (pre ++ f :: post) = padPrefix pre ++ padStream (f :: post) := by
+  induction pre with
+  | nil => simp [padPrefix]
+  | cons a rest ih =>
+    cases rest with
+    | nil => simp only [List.cons_append, List.nil_append, padStream, padPrefix, List.append_nil]
+    | cons b rest' =>
+      simp only [List.cons_append] at ih ⊢
+      simp only [padStream, padPrefix, ih, List.append_assoc]
+
+theorem padStream_head (f : Bytes) (post : List Bytes) : ∃ Q, padStream (f :: post) = f ++ Q := by
+  cases post with
+  | nil => exact ⟨[], by simp [padStream]⟩
+  | cons g rest => exact ⟨padOf f.length ++ padStream (g :: rest), by simp [padStream]⟩
+
+theorem padPieces_flatten (files : List Bytes) : (padPieces files).flatten = padStream files := by
+  induction files with
+  | nil => rfl
+  | cons f rest ih =>
+    cases rest with
+    | nil => simp only [padPieces, padStream]; split <;> simp_all
+    | cons g rest' =>
+      simp only [padPieces, padStream, List.flatten_append, ih]
+      congr 1
+      congr 1
+      · split <;> simp_all
+      · split <;> simp_all
+
+end Sync
+
 end Replicat
